@@ -128,6 +128,7 @@ type c06Scenario struct {
 	h2Select bool
 	grown    bool // the file grows (a committed bulk insert by another process) after the handle was opened, before the call
 	repeat   bool // the same handle makes the call a second time after the first returned (whatever its outcome)
+	readOnly bool // the file has no write permission bit when it is opened (other processes may still write: root, an earlier open, a later chmod)
 	nestAt   int  // the callback of this row makes select-like calls on the same handle itself (refused today: "trying to lock a locked lock")
 }
 
@@ -144,6 +145,9 @@ func (s *c06Scenario) String() string {
 	}
 	if s.others != "" {
 		x += " with " + s.others
+	}
+	if s.readOnly {
+		x += " on a file without write permission bits"
 	}
 	if s.grown {
 		x += " on a file grown after Open"
@@ -176,6 +180,9 @@ func c06Run(r *ev.Run, c *mc.Ctx, wk *c06Worker, sc *c06Scenario, img []byte) c0
 	os.WriteFile(path, img, 0o644)
 	defer os.Remove(path)
 	defer os.Remove(path + "-journal")
+	if sc.readOnly {
+		os.Chmod(path, 0o444)
+	}
 	mypid := os.Getpid()
 	var res c06Result
 
@@ -648,6 +655,10 @@ func runC06(r *ev.Run) {
 		}
 		if op.name == "SelectRowid" {
 			scen = append(scen, c06Scenario{op: op, others: "W", grown: true})
+		}
+		if os.Geteuid() == 0 && (op.name == "Select" || op.name == "PKSelect" || op.name == "Columns") {
+			// permission bits say nothing about writers (root, a descriptor opened earlier): the lock is needed all the same
+			scen = append(scen, c06Scenario{op: op, others: "W", readOnly: true}, c06Scenario{op: op, readOnly: true})
 		}
 		if op.name == "SelectDone" || op.name == "Columns" || op.name == "IndexedSelect(w)" {
 			scen = append(scen, c06Scenario{op: op, others: "WX"})
